@@ -374,10 +374,12 @@ def _enc(idx):
     return repr(idx)
 
 
-def axis_alphabet(n, full=True):
+def axis_alphabet(n, full=True, tiny=False):
     """ints (both signs) and slices of one axis of length n; admissible ones only."""
     out = list(range(n)) + list(range(-n, 0))
-    if not full:
+    if tiny:
+        out = [slice(None), 0, slice(1, None)]
+    elif not full:
         cand = [slice(None), slice(None, None, 2), slice(1, None), slice(None, -1)]
         out = [0, -1] + cand
     else:
@@ -405,7 +407,7 @@ def index_exprs(shape, full=True, lists=True):
     """The index alphabet for a partition of the given shape."""
     nd = len(shape)
     out = []
-    small = [axis_alphabet(n, full=False) for n in shape]
+    small = [axis_alphabet(n, full=False, tiny=(nd >= 3)) for n in shape]
     big = [axis_alphabet(n, full=full) for n in shape]
     if nd == 1:
         for i in big[0]:
@@ -1178,7 +1180,9 @@ def configs(tier):
             bases.append(('non', t, RP))
         for t in _star(U, G2U, 2):
             bases.append(('uni', t, ['getitem']))
-        for t in _star(N, G2N, 2):
+        NG = [a for a in N if a[1:] in (['nob', 0, 0], ['nob', 1, 1], ['lim', 1, 2],
+                                        ['lim', 0, 1])]
+        for t in _star(NG, G2N, 2):
             bases.append(('non', t, ['getitem']))
         for t in _prod(G2U, 2):
             bases.append(('uni', t, ['getitem2']))
